@@ -244,7 +244,13 @@ func Run(tier string, seed int64, outDir string) *common.Meta {
 		for pi := 0; pi < np; pi++ {
 			switch rng.Intn(10) {
 			case 0:
-				pats = append(pats, pat{text: filepath.Join(dir, "nomatch-*.go")})
+				// a pattern that matches no file, in every spelling: glob, plain file name, file in a missing
+				// directory, empty list element, blanks only
+				forms := []string{filepath.Join(dir, "nomatch-*.go"), filepath.Join(dir, "missing.go"), filepath.Join(dir, "nodir", "rules.go"), "", "  "}
+				if np == 1 {
+					forms = append(forms[:3], forms[4]) // rules="" alone means "no user rules", not a pattern
+				}
+				pats = append(pats, pat{text: forms[rng.Intn(len(forms))]})
 			case 1:
 				pats = append(pats, pat{text: filepath.Join(dir, "[bad"), bad: true})
 			case 2, 3: // glob over a sub-directory with several files
